@@ -60,6 +60,9 @@ type c08BlockPlan struct {
 	BTPMsgs  []string // hex messages sent over the BTP network (only in btp worlds, height>=2)
 	Signers  []int    // validators signing the commit votes FOR this block (carried by the next)
 	TSOff    []int64  // their timestamp offsets
+	// Patches > 0: a second rendering of this block is built by the node's block handler with that many patch
+	// transactions (the skip-transaction patch consensus proposes after the round limit) and joins the pool
+	Patches int
 }
 
 type c08Plan struct {
@@ -73,7 +76,7 @@ func (p *c08Plan) String() string {
 	fmt.Fprintf(&sb, "nv=%d btp=%v", p.NV, p.BTP)
 	for i, b := range p.Blocks {
 		h := crypto.SHA3Sum256([]byte(strings.Join(b.Payloads, "|") + "#" + strings.Join(b.BTPMsgs, "|")))
-		fmt.Fprintf(&sb, " h%d{tx=%d btpmsg=%d sig=%v off=%v c=%x}", i+1, len(b.Payloads), len(b.BTPMsgs), b.Signers, b.TSOff, h[:4])
+		fmt.Fprintf(&sb, " h%d{tx=%d btpmsg=%d patches=%d sig=%v off=%v c=%x}", i+1, len(b.Payloads), len(b.BTPMsgs), b.Patches, b.Signers, b.TSOff, h[:4])
 	}
 	return sb.String()
 }
@@ -118,6 +121,9 @@ func c08DrawPlan(rt *rapid.T, maxTx int) *c08Plan {
 			}
 		}
 		b.Signers, b.TSOff = c08DrawSigners(rt, p.NV)
+		if rapid.IntRange(0, 2).Draw(rt, "withPatches") == 0 {
+			b.Patches = rapid.IntRange(1, 3).Draw(rt, "nPatches")
+		}
 		p.Blocks = append(p.Blocks, b)
 	}
 	return p
@@ -134,7 +140,16 @@ type c08Blk struct {
 	NTx    int
 	NVotes int
 	HasBTP bool
+	NPatch int
+	// ids of the patch transactions as the transactions themselves report them before serialization (a v3
+	// transaction's id is the hash of its canonical field serialization, not of its stored bytes)
+	PatchIDs [][]byte
 }
+
+type c08SkipPatch struct{ h int64 }
+
+func (c08SkipPatch) Type() string   { return module.PatchTypeSkipTransaction }
+func (p c08SkipPatch) Data() []byte { return []byte(fmt.Sprintf(`{"height":"0x%x"}`, p.h)) }
 
 type c08World struct {
 	W    *hbWorld
@@ -204,6 +219,41 @@ func c08Build(p *c08Plan) *c08World {
 			NVotes: c08VoteCount(bf.Votes),
 			HasBTP: len(bf.BTPDigest) > 0,
 		})
+		if h <= n && p.Blocks[h-1].Patches > 0 {
+			// the same block as the node's block handler builds it when the proposal carries patch transactions
+			var ptxs []module.Transaction
+			var pids [][]byte
+			for i := 0; i < p.Blocks[h-1].Patches; i++ {
+				ptx, err := transaction.NewPatchTransaction(c08SkipPatch{int64(h + i)}, w.A.Chain.NID(), blk.Timestamp()+int64(i), w.A.Chain.Wallet())
+				if err != nil {
+					ev.Inconclusive("C08: NewPatchTransaction: %v", err)
+				}
+				ptxs = append(ptxs, ptx)
+				pids = append(pids, append([]byte{}, ptx.ID()...))
+			}
+			patches := transaction.NewTransactionListFromSlice(w.A.Chain.Database(), ptxs)
+			bs, err := blk.BTPSection()
+			if err != nil {
+				ev.Inconclusive("C08: BTPSection: %v", err)
+			}
+			pb := block.NewBlockV2Handler(w.A.Chain).NewBlock(blk.Height(), blk.Timestamp(), blk.Proposer(), last, blk.LogsBloom(), blk.Result(),
+				patches, blk.NormalTransactions(), blk.NextValidators(), blk.Votes(), bs)
+			phf, pbf, err := block.FormatFromBlock(pb)
+			if err != nil {
+				ev.Inconclusive("C08: FormatFromBlock(patched): %v", err)
+			}
+			var phb bytes.Buffer
+			if err := pb.MarshalHeader(&phb); err != nil {
+				ev.Inconclusive("C08: MarshalHeader(patched): %v", err)
+			}
+			w.Blks = append(w.Blks, &c08Blk{
+				Blk: pb, HF: phf, BF: pbf, Enc: hbMarshal(pb), HdrLen: phb.Len(),
+				NTx:    len(pbf.NormalTransactions),
+				NVotes: c08VoteCount(pbf.Votes),
+				HasBTP: len(pbf.BTPDigest) > 0,
+				NPatch: len(pbf.PatchTransactions), PatchIDs: pids,
+			})
+		}
 		if h <= n {
 			bp := p.Blocks[h-1]
 			ts := make([]int64, len(bp.Signers))
@@ -548,6 +598,8 @@ func c08RoundTrip(bdf module.BlockDataFactory, x *c08Blk) string {
 			tx, err := g.l.Get(i)
 			if err != nil {
 				add(fmt.Sprintf("%s tx %d: %v", g.name, i, err))
+			} else if g.name == "patch" && i < len(x.PatchIDs) {
+				add(c08Eq(fmt.Sprintf("%s tx id %d", g.name, i), tx.ID(), x.PatchIDs[i]))
 			} else {
 				add(c08Eq(fmt.Sprintf("%s tx id %d", g.name, i), tx.ID(), crypto.SHA3Sum256(g.want[i])))
 			}
@@ -867,7 +919,10 @@ func TestC08(t *testing.T) {
 				if x.NTx == 0 {
 					labels = append(labels, "rt-empty-block")
 				}
-				rec.Case(fmt.Sprintf("roundtrip %s blk=%d", p, i+1), x.NTx >= 1, labels...)
+				if x.NPatch > 0 {
+					labels = append(labels, "rt-with-patch-transactions")
+				}
+				rec.Case(fmt.Sprintf("roundtrip %s blk=%d", p, i+1), x.NTx >= 1 || x.NPatch >= 1, labels...)
 				if viol != "" {
 					rt.Fatalf("C08 violated: %s (plan %s)", viol, p)
 				}
